@@ -76,13 +76,16 @@ PROPS = {
         technique='explicit-state exploration with nested submissions at every callback position (budgeted deviations) + re-entrancy monitor + reference-model conformance',
         quick=[S('flat', ops=['start', 'pe:1', 'pe:2', 'pe:4', 'eq:3', 'xq', 'xs'], submits=1, guards=1, qbound=2),
                S('hier2', ops=['start', 'pe:1', 'pe:3', 'eq:1', 'xq'], submits=1, guards=1, qbound=2),
-               S('hier2', ops=['start', 'pe:1', 'pe:2'], submits=1, guards=2, qbound=1, cfgs=['b', 'b11', 'm', 'mc'])],
+               S('hier2', ops=['start', 'pe:1', 'pe:2'], submits=1, guards=2, qbound=1, cfgs=['b', 'b11', 'm', 'mc']),
+               S('flat', ops=['start', 'pe:1', 'pe:2', 'pe:3', 'pe:4'], submits=1, guards=1, qbound=2, submit_in_nt=True)],
         thorough=[S('flat', ops=['start', 'pe:1', 'pe:2', 'pe:3', 'pe:4', 'eq:1', 'eq:3', 'xq', 'xs'], submits=2, guards=1, qbound=2),
                   S('hier2', ops=['start', 'pe:1', 'pe:2', 'pe:3', 'pe:4', 'eq:1', 'xq', 'xs'], submits=1, guards=2, qbound=2),
                   S('ortho', ops=['start', 'pe:1', 'pe:2', 'pe:3', 'eq:1', 'xq', 'xs'], submits=2, guards=1, qbound=2),
-                  S('hier3', ops=['start', 'pe:1', 'pe:2', 'pe:4', 'eq:2', 'xq'], submits=1, guards=1, qbound=2)],
+                  S('hier3', ops=['start', 'pe:1', 'pe:2', 'pe:4', 'eq:2', 'xq'], submits=1, guards=1, qbound=2),
+                  S('hier2', ops=['start', 'pe:1', 'pe:2', 'pe:3', 'pe:4'], submits=1, guards=1, qbound=2, submit_in_nt=True),
+                  S('ortho', ops=['start', 'pe:1', 'pe:2', 'pe:3', 'pe:4'], submits=1, guards=1, qbound=2, submit_in_nt=True)],
         rule='every reachable configuration x every event x up to N nested submissions (process_event / enqueue_event, local Fsm or root) '
-             'placed at any guard/exit/action/entry/exception_caught position, during event processing and during start(), interleaved with '
+             'placed at any guard/exit/action/entry/exception_caught/no_transition position, during event processing and during start(), interleaved with '
              'driver-level enqueue_event / execute_queued_events / execute_single_queued_event; non-trivial when a nested submission happened',
     ),
     'C10': dict(
@@ -226,7 +229,7 @@ PROPS = {
     ),
     'C20': dict(
         level='exploration', design_ref='5/C20', custom='storage', oracle=None, engine='storage',
-        technique='exhaustive enumeration of all operation sequences up to depth k over the storage API for a zoo of event types, on the real back-ends under ASan/UBSan/LSan with a construction/destruction ledger',
+        technique='exhaustive enumeration of all operation sequences up to depth k over the storage API for a zoo of event types, on the real back-ends under ASan/UBSan/LSan and, in a second pass, MemorySanitizer, with a construction/destruction ledger',
         depth={'quick': 4, 'thorough': 5},
         rule='all sequences of exactly k operations over {enqueue_event, process_event (handled / deferred by state / deferred by action), submit from an action, state changes incl. entering a '
              'no-history submachine (pool reset), drain, single step, copy-construct, copy-assign, move-construct, move-assign, clear, stop} followed by destruction with events pending, '
@@ -234,7 +237,7 @@ PROPS = {
         level_note='Trusted: the ledger and checksum code in storage/storage.cpp, clang 14 sanitizers. Not covered: event types outside the zoo, sequences longer than k.',
         level_text='Every sequence of k storage-relevant operations is executed for each event type of a zoo spanning sizes 1-512, alignments 1-64 and trivial / non-trivial / throwing-move / self-referential '
                    'classes; every dispatched object is compared with the submitted one (bytes, self pointer, alignment), every tracked object must be destroyed exactly once at the address it was constructed at, '
-                   'and the sanitizers report reads of freed, out-of-bounds or leaked memory.',
+                   'and the sanitizers report reads of freed, out-of-bounds, leaked or (MemorySanitizer pass) uninitialised memory.',
     ),
     'C14': dict(
         level='model_checking', design_ref='5/C14', custom='frontends', oracle=None, engine='lockstep+tokenizer',
